@@ -1167,10 +1167,10 @@ func ruleWR6(c *Ctx) {
 		return false
 	})
 	for _, r := range returnsOf(rd) {
-		if len(r.Results) != 2 {
+		if len(r.Results) < 2 || !isErrorType(r.Results[len(r.Results)-1]) {
 			continue
 		}
-		errv := r.Results[1]
+		errv := r.Results[len(r.Results)-1] // (the reader may report more than the events: a torn-tail flag, a byte count)
 		if u, ok := errv.(*ssa.UnOp); ok && u.Op == token.MUL {
 			// named-result / defer spill: last store in block
 			for _, in := range r.Block().Instrs {
